@@ -72,6 +72,13 @@ def _judge(rec, j, got, resolved=None):
                 "after %s input %d: specification %s, %s object reports %s (case %s)" % (
                     [_mkey(a) for a in rec["acts"][:j + 1]], i, want["v"][i], name, got[name], detail["case"]), detail))
             break
+    if "checker" in got:
+        for i, v in enumerate(got["checker"]):
+            if v is not None and v != want["v"][i]:
+                fails.append(("C06|checker-contexts-prepared-first|%s|expected=%s|got=%s" % (base, want["v"][i], v),
+                              "after %s input %d: specification %s; one SolutionChecker, all contexts prepared first, then checked: %s" % (
+                                  [_mkey(a) for a in rec["acts"][:j + 1]], i, want["v"][i], got["checker"]), detail))
+                break
     for name in ("long_bad", "fresh_bad"):
         if got[name] != want["bad"]:
             fails.append(("C06|bad_solution_count|%s|%s" % (name, base),
@@ -238,8 +245,13 @@ class _Abs(object):
             return None
         return x
 
+    def short(self):
+        return any(r.get("cut") for r in self.ins)
+
     def _candidate(self, rnd, name, max_inserts):
         n, m = len(self.ins), len(self.outs)
+        if name in ("ins_insert", "ins_remove", "ins_swap") and self.short():
+            return None
         P = rnd.randint(1, n)
         if name == "ver":
             return {"m": name, "a": 0, "b": 1 - self.ver}
@@ -288,7 +300,9 @@ class _Abs(object):
             a, b = sorted(rnd.sample(range(1, m + 1), 2))
             return {"m": name, "a": a, "b": b}
         if name == "forget":
-            return {"m": name, "a": P, "b": 0} if self.ins[P - 1]["known"] else None
+            if not self.ins[P - 1]["known"]:
+                return None
+            return {"m": name, "a": P, "b": 1 if (not self.short() and rnd.random() < 0.4) else 0}
         if name == "revert":
             return {"m": name, "a": 0, "b": 0} if json.dumps([self.ver, self.lock, self.ins, self.outs]) != self.orig else None
         return None
@@ -324,7 +338,10 @@ class _Abs(object):
         elif m == "outs_swap":
             self.outs[a - 1], self.outs[b - 1] = self.outs[b - 1], self.outs[a - 1]
         elif m == "forget":
-            self.ins[a - 1]["known"] = False
+            for r in (self.ins[a - 1:] if b == 1 else [self.ins[a - 1]]):
+                r["known"] = False
+                if b == 1:
+                    r["cut"] = True
         elif m == "revert":
             self.ver, self.lock, self.ins, self.outs = json.loads(self.orig)
             self.inserts = 0
@@ -387,11 +404,14 @@ def _record_random(args):
                 got = {"exc": "%s: %s" % (type(e).__name__, e)}
             e = {"m": x["m"], "a": x["a"], "b": x["b"], "ok": "exc" not in got}
             if e["ok"]:
-                e.update({"long": got["long"], "fresh": got["fresh"], "again": got["again"],
+                e.update({"checker": [True if v is None else v for v in got["checker"]],
+                          "known": [v is not None for v in got["checker"]],
+                          "long": got["long"], "fresh": got["fresh"], "again": got["again"],
                           "long_bad": got["long_bad"], "fresh_bad": got["fresh_bad"]})
             else:
                 n = len(tut.tx.txs_in)
-                e.update({"long": [False] * n, "fresh": [False] * n, "again": [False] * n, "long_bad": -1, "fresh_bad": -1,
+                e.update({"checker": [False] * n, "known": [True] * n,
+                          "long": [False] * n, "fresh": [False] * n, "again": [False] * n, "long_bad": -1, "fresh_bad": -1,
                           "note": got["exc"]})
             ev.append(e)
         if ev is None:
